@@ -7,8 +7,24 @@ LEVEL = "model_checking"
 FOCUS = "C04"
 
 
+NOT_REQUESTS = {"find_first", "min_version", "parse_version"}        # public, but never talk to the port
+ALIASES = {"dio_b_set": "pb_set"}
+
+
+def alphabet_covers_class(ctx):
+    """C04 is about EVERY request method: a public method the alphabet does not know is reported (DRIFT + evidence), never silently skipped"""
+    e3m, _e3s, _ser = L.mods()
+    pub = {n for n in dir(e3m.EBBMotionWrap) if not n.startswith("_") and callable(getattr(e3m.EBBMotionWrap, n))}
+    unknown = sorted(ALIASES.get(n, n) for n in pub if ALIASES.get(n, n) not in L.ALL_METHODS and n not in NOT_REQUESTS)
+    gone = sorted(m for m in L.ALL_METHODS if m not in {ALIASES.get(n, n) for n in pub})
+    ctx.stage("alphabet", kind="self-check", public_methods=len(pub), not_in_alphabet=unknown, in_alphabet_but_gone=gone)
+    if unknown:
+        ctx.note_drift("public methods of EBBMotionWrap outside the checked alphabet (their guards are NOT judged)", unknown)
+
+
 def run(ctx):
     q = ctx.tier == "quick"
+    alphabet_covers_class(ctx)
     ctx.run_tlc("e1", "EBB3LinkMC", "EBB3Link_c04.cfg" if q else "EBB3Link_c04_deep.cfg", coverage=q)
     # refinement: the impl-shaped machine implements the one-paragraph abstraction (EBB3Abs) under the mapping of EBB3Refine
     ctx.run_tlc("e1.refines_EBB3Abs", "EBB3Refine", "EBB3Refine.cfg")
